@@ -121,38 +121,41 @@ type openConn struct {
 }
 
 type world struct {
-	c            *Case
-	forceSync    bool
-	mu           sync.Mutex
-	events       []event
-	tasks        []*task
-	regs         []*reg
-	rounds       []*roundObs
-	calls        []callObs
-	nextPid      int
-	round        int
-	inIdle       bool
-	open         *openConn
-	asyncNonNull bool // some non-null field was resolved asynchronously
-	f02a         bool // an asynchronously resolved non-null field failed / was null (F-02a territory)
-	anomalies    []string
-	aux          sync.WaitGroup
-	invoked      int
-	internal     int // chain/join goroutines inferred
-	invs         []string
-	pumpStop     chan struct{}
-	pumpDone     chan struct{}
-	pumped       int
-	execs        int
-	expect       *task                          // hook mode: the task whose apifu.Go call is about to happen
-	chanPid      map[graphql.ResolvePromise]int // hook mode: promise -> model id
-	pendingChain []int                          // hook mode: inputs of the chain/join whose Go call comes next
-	pidRound     map[int]int                    // hook mode: idle round in which the handler received the promise's resolution
-	taskByPid    map[int]*task
-	regByPid     map[int]*reg
-	invMap       map[string]*inv
-	invList      []*inv
-	curDep       int
+	c               *Case
+	forceSync       bool
+	mu              sync.Mutex
+	events          []event
+	tasks           []*task
+	regs            []*reg
+	rounds          []*roundObs
+	calls           []callObs
+	nextPid         int
+	round           int
+	inIdle          bool
+	open            *openConn
+	asyncNonNull    bool // some non-null field was resolved asynchronously
+	f02a            bool // an asynchronously resolved non-null field failed / was null (F-02a territory)
+	anomalies       []string
+	aux             sync.WaitGroup
+	invoked         int
+	internal        int // chain/join goroutines inferred
+	invs            []string
+	pumpStop        chan struct{}
+	pumpDone        chan struct{}
+	pumped          int
+	execs           int
+	expect          *task                          // hook mode: the task whose apifu.Go call is about to happen
+	chanPid         map[graphql.ResolvePromise]int // hook mode: promise -> model id
+	pendingChain    []int                          // hook mode: inputs of the chain/join whose Go call comes next
+	pidRound        map[int]int                    // hook mode: idle round in which the handler received the promise's resolution
+	taskByPid       map[int]*task
+	regByPid        map[int]*reg
+	getterCalls     map[string]int
+	inferenceUnsafe bool
+	countCalls      int
+	invMap          map[string]*inv
+	invList         []*inv
+	curDep          int
 }
 
 // curWorld is the world of the case being served (hook mode: api.go's trace points have no context).
@@ -552,59 +555,132 @@ func (o *openConn) add(pid int, t *task, r *reg) {
 	}
 }
 
-// resolveEdges is ConnectionConfig.ResolveEdges of the plain connection `c`.
-func resolveEdges(ctx graphql.FieldContext, after, before interface{}, limit int) (interface{}, func(a, b interface{}) bool, error) {
-	w := worldOf(ctx.Context)
-	id, _ := ctx.Arguments["id"].(int)
-	key := parentKey(ctx.Object) + "/c" + strconv.Itoa(id)
-	if w.inIdle {
-		w.anomaly("a resolver ran on the executor while the idle handler was running")
-	}
-	o := w.ensureOpen(key, limit == 1 || limit == -1, false)
-	o.inv = w.noteInv(key, parentKey(ctx.Object), true)
-	w.invoked++
-	sp := w.spec(key)
-	w.invs = append(w.invs, key+":"+sp.Mode+":"+sp.Out+":"+sp.Gate)
-	less := func(a, b interface{}) bool { return a.(int) < b.(int) }
-	var err error
-	edges := []edgeVal{}
-	switch sp.Out {
-	case "err":
-		err = errors.New("E" + key)
-	case "null":
-	default:
-		for j := 0; j < sp.N+1; j++ {
-			edges = append(edges, edgeVal{key: key + "[" + strconv.Itoa(j) + "]", idx: j})
+// edgesResolver is the body of ConnectionConfig.ResolveEdges / ResolveAllEdges of the connection field
+// `name` (c: ResolveEdges; ca: ResolveAllEdges; cd: ResolveEdges + ResolveTotalCount). With a zero page
+// size pagination.go calls it once per `pageInfo` / `totalCount` field (and alias) that needs the edges.
+func edgesResolver(name string) func(ctx graphql.FieldContext, zero bool) (interface{}, func(a, b interface{}) bool, error) {
+	return func(ctx graphql.FieldContext, zero bool) (interface{}, func(a, b interface{}) bool, error) {
+		w := worldOf(ctx.Context)
+		id, _ := ctx.Arguments["id"].(int)
+		key := parentKey(ctx.Object) + "/" + name + strconv.Itoa(id)
+		if w.inIdle {
+			w.anomaly("a resolver ran on the executor while the idle handler was running")
 		}
-	}
-	if sp.Mode == "sync" {
-		if err != nil {
-			o.failed = true
-			return nil, nil, err
+		w.getterCall(key)
+		o := w.ensureOpen(key, zero, false)
+		o.inv = w.noteInv(key, parentKey(ctx.Object), true)
+		w.invoked++
+		sp := w.spec(key)
+		w.invs = append(w.invs, key+":"+sp.Mode+":"+sp.Out+":"+sp.Gate)
+		less := func(a, b interface{}) bool { return a.(int) < b.(int) }
+		var err error
+		edges := []edgeVal{}
+		switch sp.Out {
+		case "err":
+			err = errors.New("E" + key)
+		case "null":
+		default:
+			for j := 0; j < sp.N+1; j++ {
+				edges = append(edges, edgeVal{key: key + "[" + strconv.Itoa(j) + "]", idx: j})
+			}
 		}
-		return edges, less, nil
+		if sp.Mode == "sync" {
+			if err != nil {
+				o.failed = true
+				return nil, nil, err
+			}
+			return edges, less, nil
+		}
+		if o.zero && sp.Out == "err" {
+			w.f02a = true // pageInfo: PageInfo! is resolved through a failing promise
+		}
+		v, t, r, _ := w.async(ctx, key, sp, edges, err)
+		if t != nil {
+			o.add(t.pid, t, nil)
+		} else {
+			o.add(r.pid, nil, r)
+		}
+		return v, less, nil
 	}
-	if o.zero && sp.Out == "err" {
-		w.f02a = true // pageInfo: PageInfo! is resolved through a failing promise
+}
+
+// getterCall counts how often the edges of one connection invocation were asked for. More than once
+// (zero page size with several pageInfo/totalCount fields) is beyond what the fallback inference of
+// pagination.go's chain/join calls handles (closeOpen); the hook mode does not need it.
+func (w *world) getterCall(key string) {
+	if w.getterCalls == nil {
+		w.getterCalls = map[string]int{}
 	}
-	v, t, r, _ := w.async(ctx, key, sp, edges, err)
-	if t != nil {
-		o.add(t.pid, t, nil)
-	} else {
-		o.add(r.pid, nil, r)
+	w.getterCalls[key]++
+	if w.getterCalls[key] > 1 {
+		w.inferenceUnsafe = true
 	}
-	return v, less, nil
+}
+
+// countResolver is ConnectionConfig.ResolveTotalCount of the connection field `name`: an Int! field
+// resolved like any other (sync / Go / Batch).
+func countResolver(name string) func(ctx graphql.FieldContext) (interface{}, error) {
+	return func(ctx graphql.FieldContext) (interface{}, error) {
+		w := worldOf(ctx.Context)
+		w.execEvent()
+		id, _ := ctx.Arguments["id"].(int)
+		conn := parentKey(ctx.Object) + "/" + name + strconv.Itoa(id)
+		w.countCalls++
+		key := conn + "/count"
+		sp := w.spec(key)
+		var val interface{}
+		var err error
+		switch sp.Out {
+		case "err", "null": // a null count is an error for Int!: keep it simple, fail alike
+			err = errors.New("E" + key)
+		default:
+			val = w.intValue(key)
+		}
+		w.invs = append(w.invs, key+":"+sp.Mode+":"+sp.Out+":"+sp.Gate)
+		if sp.Mode != "sync" {
+			w.asyncNonNull = true
+			if err != nil {
+				w.f02a = true
+			}
+		}
+		w.curDep = -1
+		for p := w.invMap[conn]; p != nil; p = w.invMap[p.parent] {
+			if p.t != nil {
+				w.curDep = p.t.pid
+				break
+			}
+			if p.r != nil {
+				w.curDep = p.r.pid
+				break
+			}
+			if (p.conn && p.connAsync) || p.parent == "" {
+				break
+			}
+		}
+		if w.countCalls > 1 {
+			// the same count asked twice (aliases): give the second task its own identity in the logs
+			key = key + "~" + strconv.Itoa(w.countCalls)
+		}
+		v, _, _, e := w.async(ctx, key, sp, val, err)
+		return v, e
+	}
 }
 
 var baseTime = time.Date(2020, 1, 1, 0, 0, 0, 0, time.UTC)
 
 func edgeTime(idx int) time.Time { return baseTime.Add(time.Duration(idx/2) * time.Second) } // pairs share a timestamp
 
-// edgeGetter is TimeBasedConnectionConfig.EdgeGetter of the time-based connection `t`.
-func edgeGetter(ctx graphql.FieldContext, minTime, maxTime time.Time, limit int) (interface{}, error) {
+// edgeGetter is TimeBasedConnectionConfig.EdgeGetter of the time-based connection field `name`.
+func edgeGetter(name string) func(ctx graphql.FieldContext, minTime, maxTime time.Time, limit int) (interface{}, error) {
+	return func(ctx graphql.FieldContext, minTime, maxTime time.Time, limit int) (interface{}, error) {
+		return edgeGetter1(name, ctx, minTime, maxTime, limit)
+	}
+}
+
+func edgeGetter1(name string, ctx graphql.FieldContext, minTime, maxTime time.Time, limit int) (interface{}, error) {
 	w := worldOf(ctx.Context)
 	id, _ := ctx.Arguments["id"].(int)
-	key := parentKey(ctx.Object) + "/t" + strconv.Itoa(id)
+	key := parentKey(ctx.Object) + "/" + name + strconv.Itoa(id)
 	if w.inIdle {
 		w.anomaly("a resolver ran on the executor while the idle handler was running")
 	}
@@ -612,8 +688,11 @@ func edgeGetter(ctx graphql.FieldContext, minTime, maxTime time.Time, limit int)
 	o.inv = w.noteInv(key, parentKey(ctx.Object), true)
 	w.invoked++
 	total := w.spec(key).N + 2
-	qkey := key + "#" + strconv.Itoa(o.calls)
+	// one spec per range query, identified by the range itself (asked again for every field that needs
+	// the edges when the page size is zero)
+	qkey := fmt.Sprintf("%s#%d.%d.%d", key, minTime.UnixNano()%1000003, maxTime.UnixNano()%1000003, limit)
 	o.calls++
+	w.getterCall(qkey)
 	sp := w.spec(qkey)
 	w.invs = append(w.invs, qkey+":"+sp.Mode+":"+sp.Out+":"+sp.Gate)
 	var err error
@@ -894,32 +973,58 @@ func buildAPI() *apifu.API {
 		}
 		return nil, errors.New("edge value expected")
 	}}
-	connC := apifu.Connection(&apifu.ConnectionConfig{
-		NamePrefix:   "C",
-		Arguments:    idArg(),
-		ResolveEdges: resolveEdges,
-		CursorType:   reflect.TypeOf(int(0)),
-		EdgeCursor:   func(e interface{}) interface{} { return e.(edgeVal).idx },
-		EdgeFields:   map[string]*graphql.FieldDefinition{"node": nodeField},
-	})
-	connT := apifu.TimeBasedConnection(&apifu.TimeBasedConnectionConfig{
-		NamePrefix: "T",
-		Arguments:  idArg(),
-		EdgeCursor: func(e interface{}) apifu.TimeBasedCursor {
-			ev := e.(edgeVal)
-			return apifu.NewTimeBasedCursor(edgeTime(ev.idx), fmt.Sprintf("%03d", ev.idx))
-		},
-		EdgeFields: map[string]*graphql.FieldDefinition{"node": nodeField},
-		EdgeGetter: edgeGetter,
-	})
+	mkConn := func(name, prefix string, all, count bool) *graphql.FieldDefinition {
+		cfg := &apifu.ConnectionConfig{
+			NamePrefix: prefix,
+			Arguments:  idArg(),
+			CursorType: reflect.TypeOf(int(0)),
+			EdgeCursor: func(e interface{}) interface{} { return e.(edgeVal).idx },
+			EdgeFields: map[string]*graphql.FieldDefinition{"node": nodeField},
+		}
+		er := edgesResolver(name)
+		if all {
+			cfg.ResolveAllEdges = func(ctx graphql.FieldContext) (interface{}, func(a, b interface{}) bool, error) {
+				return er(ctx, isZeroLimit(ctx.Arguments))
+			}
+		} else {
+			cfg.ResolveEdges = func(ctx graphql.FieldContext, after, before interface{}, limit int) (interface{}, func(a, b interface{}) bool, error) {
+				return er(ctx, limit == 1 || limit == -1)
+			}
+		}
+		if count {
+			cfg.ResolveTotalCount = countResolver(name)
+		}
+		return apifu.Connection(cfg)
+	}
+	mkTime := func(name, prefix string, count bool) *graphql.FieldDefinition {
+		cfg := &apifu.TimeBasedConnectionConfig{
+			NamePrefix: prefix,
+			Arguments:  idArg(),
+			EdgeCursor: func(e interface{}) apifu.TimeBasedCursor {
+				ev := e.(edgeVal)
+				return apifu.NewTimeBasedCursor(edgeTime(ev.idx), fmt.Sprintf("%03d", ev.idx))
+			},
+			EdgeFields: map[string]*graphql.FieldDefinition{"node": nodeField},
+			EdgeGetter: edgeGetter(name),
+		}
+		if count {
+			cfg.ResolveTotalCount = countResolver(name)
+		}
+		return apifu.TimeBasedConnection(cfg)
+	}
+	connC := mkConn("c", "C", false, false)
+	connT := mkTime("t", "T", false)
 	fields := map[string]*graphql.FieldDefinition{
-		"i": {Type: graphql.IntType, Arguments: idArg(), Resolve: resolve('i')},
-		"n": {Type: graphql.NewNonNullType(graphql.IntType), Arguments: idArg(), Resolve: resolve('n')},
-		"o": {Type: obj, Arguments: idArg(), Resolve: resolve('o')},
-		"p": {Type: graphql.NewNonNullType(obj), Arguments: idArg(), Resolve: resolve('p')},
-		"l": {Type: graphql.NewListType(obj), Arguments: idArg(), Resolve: resolve('l')},
-		"c": connC,
-		"t": connT,
+		"i":  {Type: graphql.IntType, Arguments: idArg(), Resolve: resolve('i')},
+		"n":  {Type: graphql.NewNonNullType(graphql.IntType), Arguments: idArg(), Resolve: resolve('n')},
+		"o":  {Type: obj, Arguments: idArg(), Resolve: resolve('o')},
+		"p":  {Type: graphql.NewNonNullType(obj), Arguments: idArg(), Resolve: resolve('p')},
+		"l":  {Type: graphql.NewListType(obj), Arguments: idArg(), Resolve: resolve('l')},
+		"c":  connC,
+		"t":  connT,
+		"ca": mkConn("ca", "CA", true, false), // ResolveAllEdges: totalCount from the edges
+		"cd": mkConn("cd", "CD", false, true), // ResolveEdges + ResolveTotalCount
+		"tu": mkTime("tu", "TU", true),        // time-based + ResolveTotalCount
 	}
 	obj.Fields = fields
 	cfg := &apifu.Config{}
